@@ -128,7 +128,18 @@ AMINO = "ACDEFGHIKLMNPQRSTVWY"
 AMINO_X = "ACDEFGHIKLMNPQRSTVWYBJZOUX"
 
 
+SPIKES = "efjlopqzEFJLOPQZ" * 3 + "UuXxIiTtBbJj" + "0159" + "*-._~!@#$%&()[]{}?\\|;:,'\"+=^`" + " \t"
+
+
 def rand_residues(rng, n, kind):
+    if kind.startswith("spike:"):
+        # residues of the base alphabet with (usually) a few symbols that some alphabet / format selection must reject or skip:
+        # letters outside the nucleotide alphabets, synonyms, digits, punctuation, blanks (never > / CR LF: those are structure)
+        s = list(rand_residues(rng, n, kind[6:]))
+        if s and rng.random() < 0.7:
+            for _ in range(rng.choice([1, 1, 2, 3])):
+                s.insert(rng.choice([0, len(s), len(s) - 1, rng.randrange(len(s) + 1), rng.randrange(len(s) + 1)]), rng.choice(SPIKES))
+        return "".join(s)
     if kind == "dna":
         r = rng.random()
         al = DNA if r < 0.6 else (DNA + DNA.lower() if r < 0.8 else DNA_DEG + "acgtn")
@@ -213,6 +224,7 @@ def gen_fasta(rng, tier="quick", kind="dna", geometry=None, nrec=None, maxlen=No
             else:
                 L = rng.randrange(200, 3000 if tier == "quick" else 20001)
         seq = rand_residues(rng, L, kind)
+        L = len(seq)
         name = rand_name(rng, used)
         desc = rand_desc(rng)
         hdr = ">" + (rng.choice(["", "", " ", "\t"]) if rng.random() < 0.1 else "") + name
@@ -296,6 +308,7 @@ def gen_linebased(rng, fmt, kind="dna", nrec=None, tier="quick"):
         r = rng.random()
         L = 0 if r < 0.05 else rng.randrange(1, 150) if r < 0.85 else rng.randrange(150, 1500 if tier == "quick" else 20001)
         seq = rand_residues(rng, L, kind)
+        L = len(seq)
         name = "".join(c for c in rand_name(rng, used) if c not in " ;\t") or "n%d" % i
         acc = rng.choice(["", "P%05d" % rng.randrange(100000), "X%05d.%d" % (rng.randrange(100000), rng.randrange(1, 9))])
         while acc and acc in used:
@@ -425,6 +438,7 @@ def gen_daemon(rng, kind="dna", nrec=None):
     for i in range(nrec):
         L = rng.choice([0, 1, 5, 60, 61, rng.randrange(1, 200), rng.randrange(1, 200)])
         seq = rand_residues(rng, L, kind)
+        L = len(seq)
         name = rand_name(rng, used)
         desc = rand_desc(rng).split("\x01")[0] if rng.random() < 0.5 else ""
         w = rng.choice([60, 10, 1, 200])
@@ -1306,6 +1320,180 @@ def monitor_msaseq(case, out):
                 # (an all-gap row comes back as an immediate EOD whose info record carries no name: the annotation is only copied with a window)
                 if i < len(rows) and ((name != rows[i][0].encode() and L > 0) or L != len(rows[i][1]) or (abc == "text" and seq != rows[i][1].encode())):
                     return Failure("monitor", "windows over sequence %d of the alignment do not reassemble the dealigned row" % i)
+    return None
+
+
+# ------------------------------------------------------------------------------------------------
+# format x alphabet matrix: residues delivered == the file's legal residues, illegal symbols are format errors (C02)
+# ------------------------------------------------------------------------------------------------
+MATRIX_FORMATS = ["fasta", "embl", "uniprot", "genbank", "ddbj", "daemon", "hmmpgmd"]
+MATRIX_ABCS = ["text", "amino", "dna", "rna"]
+MATRIX_CALLS = ["read", "readinfo", "readseq", "readwin", "readblock"]
+
+
+def _abc_codes(sym, equiv):
+    t = {}
+    for i, c in enumerate(sym):
+        if c != "-":                       # the sequence-file input maps reject the gap character: these are ungapped formats
+            t[c] = i
+            t[c.lower()] = i
+    for a, b in equiv:
+        t[a] = sym.index(b)
+        t[a.lower()] = sym.index(b)
+    return t
+
+
+ABC_CODES = {
+    "dna": _abc_codes("ACGT-RYMKSWHBVDN*~", [("U", "T"), ("X", "N"), ("I", "A"), ("_", "-"), (".", "-")]),
+    "rna": _abc_codes("ACGU-RYMKSWHBVDN*~", [("T", "U"), ("X", "N"), ("I", "A"), ("_", "-"), (".", "-")]),
+    "amino": _abc_codes("ACDEFGHIKLMNPQRSTVWY-BJZOUX*~", [("_", "-"), (".", "-")]),
+}
+
+
+def expected_residues(seq, fmt, abc):
+    """What a read of a record whose sequence lines hold the characters `seq` must deliver under format `fmt` and alphabet `abc`:
+    the bytes of sq->seq / the codes of sq->dsq, or None when a character is illegal (the read must fail with eslEFORMAT).
+    Restated from the documentation of the formats and alphabets, independently of the model's tables."""
+    ign = " \t\r" + ("0123456789" if fmt in ("embl", "uniprot", "genbank", "ddbj") else "")
+    out = bytearray()
+    for c in seq:
+        if c in ign:
+            continue
+        if abc == "text":
+            if not ((c.isalpha() and ord(c) < 128) or c == "*"):
+                return None
+            out.append(ord(c))
+        else:
+            code = ABC_CODES[abc].get(c)
+            if code is None:
+                return None
+            out.append(code)
+    return bytes(out)
+
+
+def matrix_case(rng, k):
+    """case k of the systematic sweep: format k mod 7, every alphabet, the read calls rotating"""
+    fmt = MATRIX_FORMATS[k % 7]
+    base = rng.choice(["dna", "dna", "rna", "amino"])
+    kind = "spike:" + base
+    if fmt == "fasta":
+        data, meta = gen_fasta(rng, "quick", kind, nrec=rng.choice([1, 2, 3]), maxlen=rng.choice([5, 70, 300]))
+    elif fmt == "hmmpgmd":
+        hdr = "#" + rng.choice(["res_cnt seq_cnt", "", " x"]) + "\n"
+        data, meta = gen_fasta(rng, "quick", kind, nrec=rng.choice([1, 2, 3]), maxlen=rng.choice([5, 70, 300]))
+        data = hdr.encode() + data
+    elif fmt == "daemon":
+        data, meta = gen_daemon(rng, kind, nrec=rng.choice([1, 2, 3]))
+    else:
+        data, meta = gen_linebased(rng, fmt, kind, nrec=rng.choice([1, 2, 3]))
+    ops = ["file ext=dat hex=" + hx(data)]
+    nrec = len(meta["recs"])
+    for j, abc in enumerate(MATRIX_ABCS):
+        call = MATRIX_CALLS[(k // 7 + j) % 5]
+        ops.append("open fmt=%s abc=%s B=%d" % (fmt, abc, 4096 if fmt == "daemon" else rng.choice(BSIZES)))
+        if call == "readwin":
+            # one window over the whole record, then the call that reports its end, then esl_sq_Reuse() (a record without residues
+            # reports its end at once)
+            for r in meta["recs"]:
+                e = expected_residues(r["seq"], fmt, abc)
+                ops += ["readwin C=0 W=100000"] * (1 if e is not None and len(e) == 0 else 2) + ["reuse"]
+            ops += ["readwin C=0 W=100000"]
+        elif call == "readblock":
+            ops += ["readblock list=%d maxres=-1 maxseq=-1 init=0 long=0 ctx=0" % rng.choice([1, 2, 8])] * (nrec + 1)
+        else:
+            ops += [call] * (nrec + 1)
+        ops.append("close")
+    return {"name": "matrix%d-%s" % (k, fmt), "ops": ops, "sticky": 1, "meta": {"matrix": [r["seq"] for r in meta["recs"]]}}
+
+
+def monitor_matrix(case, out):
+    """for every explicit format selection x alphabet x read call: the residues delivered are exactly the file's legal residues
+    (count and content recomputed here from the file's sequence characters), and a record holding a symbol that is illegal under
+    the selection fails with eslEFORMAT and a message - never eslOK"""
+    from vlib.engine import Failure
+    seqs = (case.get("meta") or {}).get("matrix")
+    if seqs is None:
+        return None
+    for data, od, items in sessions(case, out):
+        fmt, abc = od.get("fmt"), od.get("abc", "text")
+        if fmt not in MATRIX_FORMATS:
+            continue
+        exp = [expected_residues(s, fmt, abc) for s in seqs]
+        tag = "fmt=%s abc=%s B=%s" % (fmt, abc, od.get("B"))
+        idx = 0
+        got = False
+
+        def bad(what, line):
+            return Failure("monitor", "%s: record %d: %s; got %r" % (tag, idx, what, line[:70]))
+
+        for op, d, line in items:
+            st = line.split()[0] if line else ""
+            if st in ("fault", "atexit", "known-region"):
+                return None
+            if st in ("dead", "closed"):
+                break
+            if op in ("read", "readseq", "readinfo", "readwin"):
+                if idx >= len(exp):
+                    if st != "eof":
+                        return bad("expected end of file after %d records" % len(exp), line)
+                    continue
+                e = exp[idx]
+                if st == "eformat":
+                    if e is not None:
+                        return bad("all %d sequence symbols are legal under this selection but the read failed" % len(e), line)
+                    if " nomsg" in line:
+                        return bad("eslEFORMAT without a message", line)
+                    break
+                if e is None:
+                    return bad("the record holds a symbol that is illegal under this selection: expected eslEFORMAT", line)
+                if op == "readwin":
+                    if st == "ok":
+                        r = rec(line)
+                        if r is None or r["seq"] != e:
+                            return bad("window over the whole record must deliver its %d legal residues" % len(e), line)
+                        got = True
+                    elif st == "eod":
+                        if not got and len(e) != 0:
+                            return bad("end of data before the record's %d residues were delivered" % len(e), line)
+                        idx += 1
+                        got = False
+                    else:
+                        return bad("unexpected status", line)
+                    continue
+                r = rec(line)
+                if st != "ok" or r is None:
+                    return bad("expected eslOK", line)
+                if op == "readinfo":
+                    if r["L"] != len(e):
+                        return bad("ReadInfo L=%d, the file has %d legal residues" % (r["L"], len(e)), line)
+                elif r["n"] != len(e) or r["seq"] != e:
+                    return bad("%d residues delivered, the file has %d legal residues %r" % (r["n"], len(e), e[:20]), line)
+                idx += 1
+            elif op == "readblock":
+                if st == "eof":
+                    if idx < len(exp):
+                        return bad("ReadBlock reported end of file before record %d of %d" % (idx, len(exp)), line)
+                    continue
+                k = int(d.get("list", "1"))
+                window = exp[idx:idx + k]
+                if st == "eformat":
+                    if all(x is not None for x in window):
+                        return bad("every symbol of the next %d records is legal but ReadBlock failed" % len(window), line)
+                    if " nomsg" in line:
+                        return bad("eslEFORMAT without a message", line)
+                    break
+                b = parse_block(line) if st == "ok" else None
+                if b is None:
+                    return bad("expected a block", line)
+                for ent in b[2]:
+                    if idx >= len(exp):
+                        return bad("ReadBlock delivered more records than the file has", line)
+                    e = exp[idx]
+                    if e is None:
+                        return bad("the record holds a symbol that is illegal under this selection: expected eslEFORMAT from ReadBlock", line)
+                    if ent["n"] != len(e) or ent["seq"] != e:
+                        return bad("ReadBlock delivered %d residues, the file has %d legal residues" % (ent["n"], len(e)), line)
+                    idx += 1
     return None
 
 
